@@ -30,7 +30,8 @@ def aggregate(rows):
 class C07(core.Check):
     pid = 'C07'
     unproved = [
-        'that both simulators maintain StoreInv (complete windows + at most one partial candle of the forming window) is decided by the engine correspondence with data-candle gates and by the get_candles oracle on real sessions',
+        'the run-level composition: the write operations are proved to keep PreInv / establish StoreInv one by one (store protocol theorems), the strategy layer is proved never to write the store, and publish_establishes_inv composes them for one execution; that every iteration of both simulators performs the operations in the protocol order (new minute, [replace last, publish, hooks]*, replace last, close windows, hooks), that the rows of CLOSE WINDOW are the stored rows, and the case of several bigger timeframes per symbol are decided by the engine correspondence with data-candle gates and by the every-hook get_candles oracle on real sessions',
+        'warm-up injection (candles put into the store before the session) is outside the engine model: oracle only',
     ]
     gen_keys = ['jesse/services/candle.py:generate_candle_from_one_minutes', 'jesse/modes/backtest_mode.py:_get_fixed_jumped_candle']
     rule = ('translator cross-check of generate_candle_from_one_minutes and _get_fixed_jumped_candle; correspondence of the '
@@ -125,8 +126,11 @@ class C07(core.Check):
         for _ in range(self.budget(60, 400, boost)):
             nsym = r.choice([1, 1, 2])
             syms = ['BTC-USDT', 'ETH-USDT'][:nsym]
-            ttf = r.choice(['1m', '1m', '3m', '5m', '15m'])
-            routes = [(s, ttf if i == 0 else r.choice(['1m', '5m', '15m'])) for i, s in enumerate(syms)]
+            # isolated margin at high leverage (40 % of the futures sessions): the liquidation's position hooks are
+            # observation times too; most of these sessions run the fast simulator in chunks of several minutes
+            wantliq = r.random() < 0.3
+            ttf = r.choice(['3m', '5m', '5m', '15m']) if wantliq else r.choice(['1m', '1m', '3m', '5m', '15m'])
+            routes = [(s, ttf if i == 0 else r.choice(['5m', '15m'] if wantliq else ['1m', '5m', '15m'])) for i, s in enumerate(syms)]
             droutes = []
             for s in syms:
                 for tf in r.sample(['3m', '5m', '15m', '30m', '1h'], r.randint(0, 2)):
@@ -141,12 +145,11 @@ class C07(core.Check):
             n = r.choice([lcm, 2 * lcm, 3 * lcm]) + r.choice([0, 0, r.randint(1, big)]) if lcm <= 120 else lcm
             n = min(n, 600)
             warm = r.choice([0, 0, 1, 2])
-            kind = r.choice(['futures', 'futures', 'spot'])
-            # isolated margin at high leverage: the liquidation's position hooks are observation times too
-            # (in the last minute of a window they run before the window's candle is generated)
-            lev = r.choice([25, 50, 100]) if kind == 'futures' and r.random() < 0.4 else None
+            kind = 'futures' if wantliq else r.choice(['futures', 'futures', 'spot'])
+            lev = r.choice([25, 50, 100]) if wantliq else None
             out.append({'syms': syms, 'routes': routes, 'droutes': droutes, 'n': max(n, 2), 'warm': warm, 'kind': kind,
-                        'lcm': lcm, 'fast': r.random() < 0.5, 'seed': r.randrange(1 << 30), 'isolated_leverage': lev})
+                        'lcm': lcm, 'fast': r.random() < (0.65 if wantliq else 0.5), 'seed': r.randrange(1 << 30),
+                        'isolated_leverage': lev})
         return out
 
     def oracle(self, res, boost):
@@ -161,13 +164,16 @@ class C07(core.Check):
             warm_n = sess['warm'] * sess['lcm']
             cands, warms, inputs = {}, {}, {}
             for s in sess['syms']:
-                rows = engine.gen_candles(rr, sess['n'] + warm_n, gap_prob=0.25)
+                # isolated sessions: wider minutes, so that the liquidation price (0.5 % … 4 % away) is reached often
+                rows = engine.gen_candles(rr, sess['n'] + warm_n, gap_prob=0.25, vol=12 if sess['isolated_leverage'] else 4)
                 full = bt.make_candles(rows, start=t0 - warm_n * M)
                 inputs[s] = full
                 if warm_n:
                     warms[s] = full[:warm_n].copy()
                 cands[s] = full[warm_n:].copy()
-            scripts = {s: engine.gen_script(rr, spot=sess['kind'] == 'spot') for s in sess['syms']}
+            scripts = {s: engine.gen_script(rr, spot=sess['kind'] == 'spot',
+                                            force=({'kind': 'market', 'style': 'none'} if rr.random() < 0.6 else {'kind': 'market'})
+                                            if sess['isolated_leverage'] else None) for s in sess['syms']}
             tfs = {s: sorted({tf for (x, tf) in sess['routes'] + sess['droutes'] if x == s} | {'1m'}, key=lambda t: TFM[t])
                    for s in sess['syms']}
             problems = []
@@ -250,7 +256,13 @@ class C07(core.Check):
                                                  warmup=warms or None, fast_mode=sess['fast'])
             desc = {k: sess[k] for k in ('routes', 'droutes', 'n', 'warm', 'kind', 'fast', 'seed', 'isolated_leverage')}
             fills = sum(1 for e in tr.events if e[0] == 'FILL')
-            res.count('liquidations-observed', (tr.final or {}).get('liquidations', 0))
+            nliq = (tr.final or {}).get('liquidations', 0)
+            from math import gcd as _gcd
+            from functools import reduce as _reduce
+            stepm = _reduce(_gcd, [TFM[tf] for _, tf in sess['routes'] + sess['droutes']])
+            res.count('liquidations-observed', nliq)
+            if sess['fast'] and stepm > 1:
+                res.count('liquidations-observed:fast-chunks', nliq)
             res.seen(('sess', sess['seed'], sess['fast']), stats['forming'] > 0 or fills > 0)
             res.count('sessions:' + ('fast' if sess['fast'] else 'step'))
             res.count('observations', stats['obs'])
